@@ -8,6 +8,7 @@ import (
 	"errors"
 	"fmt"
 	"io"
+	"os"
 	"strings"
 	"time"
 	"unicode/utf8"
@@ -164,6 +165,65 @@ func Interior(in []byte, tokens [][]byte) []int {
 
 // Schedules builds the schedule family of C09 for one input.
 func Schedules(r *vh.Rng, in []byte, interior []int) []Schedule {
+	return Schedules2(r, in, interior, nil)
+}
+
+// lineEnds returns the positions just after each '\n' (or '~' if there is no '\n').
+func lineEnds(in []byte) []int {
+	var out []int
+	for i, c := range in {
+		if c == '\n' && i+1 < len(in) {
+			out = append(out, i+1)
+		}
+	}
+	return out
+}
+
+// Schedules2 additionally takes cut positions of special interest (delivered as: everything up
+// to the cut in one chunk, the rest in a later chunk / byte-wise).
+func Schedules2(r *vh.Rng, in []byte, interior []int, cuts []int) []Schedule {
+	out := schedules0(r, in, interior)
+	n := len(in)
+	// "the first k lines in one chunk, then byte-wise" (k small, and k anywhere in a long input):
+	// buffered look-ahead lines followed by a refill inside a later line
+	le := lineEnds(in)
+	if len(le) > 0 {
+		ks := []int{r.Pick(minI(len(le), 6)), r.Pick(minI(len(le), 6)), r.Pick(len(le)), r.Pick(len(le))}
+		for j, k := range ks {
+			p := le[k]
+			s := Schedule{Name: "lines-then-bytes", Sizes: []int{p}, EOFWithLast: r.Chance(0.2)}
+			if j%2 == 1 && p+2 < n {
+				// ... or a few bytes into the following line
+				s.Sizes[0] = p + 1 + r.Pick(minI(n-p-1, 12))
+			}
+			for b := 0; b < 400 && s.Sizes[0]+b < n; b++ {
+				s.Sizes = append(s.Sizes, 1)
+			}
+			out = append(out, s)
+		}
+	}
+	for _, c := range cuts {
+		if c <= 0 || c >= n {
+			continue
+		}
+		out = append(out, Schedule{Name: "cut-after-top-level", Sizes: []int{c}})
+		s := Schedule{Name: "cut-after-top-level+empties", Sizes: []int{c, 0, 0}, EOFWithLast: true}
+		for b := c; b < n && b < c+50; b++ {
+			s.Sizes = append(s.Sizes, 1)
+		}
+		out = append(out, s)
+	}
+	return out
+}
+
+func minI(a, b int) int {
+	if a < b {
+		return a
+	}
+	return b
+}
+
+func schedules0(r *vh.Rng, in []byte, interior []int) []Schedule {
 	n := len(in)
 	out := []Schedule{{Name: "whole"}}
 	one := Schedule{Name: "1-byte"}
@@ -233,11 +293,42 @@ func pickInt(r *vh.Rng, xs ...int) int { return xs[r.Pick(len(xs))] }
 
 // ---- faults ----------------------------------------------------------------------------------
 
-// FaultErr is the error type the fault-injecting reader returns (a pointer type, so that
-// identity is observable).
+// FaultErr is a pointer-typed error (identity observable).
 type FaultErr struct{ S string }
 
 func (e *FaultErr) Error() string { return e.S }
+
+// ValErr is a struct-typed (non-pointer) error value.
+type ValErr struct {
+	Op   string
+	Code int
+}
+
+func (e ValErr) Error() string { return fmt.Sprintf("%s: code %d", e.Op, e.Code) }
+
+// FaultKinds are the error VALUES a failing input reader is made to return: none of them is
+// io.EOF, though several look like it to an errors.Is / text based test.
+var FaultKinds = []string{"plain", "unexpected-eof", "wraps-eof", "path-error", "struct-value", "text-EOF", "wraps-unexpected-eof"}
+
+// MakeFault builds a fresh error value of the given kind.
+func MakeFault(kind string, n int) error {
+	switch kind {
+	case "unexpected-eof":
+		return io.ErrUnexpectedEOF
+	case "wraps-eof":
+		return fmt.Errorf("read %d: %w", n, io.EOF)
+	case "wraps-unexpected-eof":
+		return fmt.Errorf("read %d: %w", n, io.ErrUnexpectedEOF)
+	case "path-error":
+		return &os.PathError{Op: "read", Path: fmt.Sprintf("/dev/input%d", n), Err: io.EOF}
+	case "struct-value":
+		return ValErr{Op: "read", Code: 5 + n}
+	case "text-EOF":
+		return errors.New("EOF")
+	default:
+		return &FaultErr{fmt.Sprintf("disk on fire %d", n)}
+	}
+}
 
 // FaultReader returns data up to position Pos (through the inner schedule reader) and then an
 // error: persistently the same one, or one error once and then another one persistently.
@@ -252,10 +343,15 @@ type FaultReader struct {
 }
 
 func NewFaultReader(inner io.Reader, pos int, once bool) *FaultReader {
-	f := &FaultReader{inner: inner, left: pos, Once: once, Then: &FaultErr{"disk on fire"}}
+	return NewFaultReaderK(inner, pos, once, "plain", "plain")
+}
+
+// NewFaultReaderK: kind1 is the error returned first (only used when once), kind2 the persistent one.
+func NewFaultReaderK(inner io.Reader, pos int, once bool, kind1, kind2 string) *FaultReader {
+	f := &FaultReader{inner: inner, left: pos, Once: once, Then: MakeFault(kind2, 2)}
 	f.First = f.Then
 	if once {
-		f.First = &FaultErr{"i/o timeout (once)"}
+		f.First = MakeFault(kind1, 1)
 	}
 	return f
 }
@@ -293,6 +389,29 @@ type Variant struct {
 	Schema string
 	Gen    func(r *vh.Rng, n int) []byte
 	Tokens [][]byte // multi-byte units of this format (delimiters, escape pairs)
+	// MultiLine: records span several lines that alias the bufio buffer: more large inputs
+	MultiLine bool
+}
+
+// local copies of the vh fixture word generators
+func word(r *vh.Rng) string {
+	ws := []string{"x", "abc", "héllo", "a b", "Q9", "zz top", "日本", "", "0", "w"}
+	return ws[r.Pick(len(ws))]
+}
+
+func numOrBad(r *vh.Rng) string {
+	if r.Chance(0.1) {
+		return r.PickStr("x1", "", "1.5", "--", "9z")
+	}
+	return fmt.Sprint(r.Between(-50, 5000))
+}
+
+func pad(s string, n int) string {
+	rs := []rune(s)
+	if len(rs) > n {
+		return string(rs[:n])
+	}
+	return s + strings.Repeat(" ", n-len(rs))
 }
 
 func withEncoding(schema, enc string) string {
@@ -321,6 +440,27 @@ func Variants() []Variant {
 			Gen: func(r *vh.Rng, n int) []byte { return crlf(f.Gen(r, n)) }})
 		switch f.Format {
 		case "csv":
+			// rows to skip before the header and/or between the header and the first data row
+			junk := func(r *vh.Rng, k int) string {
+				var sb strings.Builder
+				for ; k > 0; k-- {
+					sb.WriteString(r.PickStr("# exported by tool\n", "do not, edit, by hand\n", "x\n", "q\"uote,in,junk\n", ",,\n"))
+				}
+				return sb.String()
+			}
+			body := func(r *vh.Rng, n int) []byte { return bytes.TrimPrefix(f.Gen(r, n), []byte("a,b,c\n")) }
+			out = append(out, Variant{Name: "csv+skiprows-after-header", FmtIdx: i,
+				Schema: strings.Replace(f.Schema, `"data_row_index": 2,`, `"data_row_index": 4,`, 1),
+				Gen:    func(r *vh.Rng, n int) []byte { return append([]byte("a,b,c\n"+junk(r, 2)), body(r, n)...) }})
+			out = append(out, Variant{Name: "csv+skiprows-header2-data5", FmtIdx: i,
+				Schema: strings.Replace(strings.Replace(f.Schema, `"data_row_index": 2,`, `"data_row_index": 5,`, 1), `"header_row_index": 1,`, `"header_row_index": 2,`, 1),
+				Gen:    func(r *vh.Rng, n int) []byte { return append([]byte(junk(r, 1)+"a,b,c\n"+junk(r, 2)), body(r, n)...) }})
+			for _, dri := range []int{2, 4} {
+				dri := dri
+				out = append(out, Variant{Name: fmt.Sprintf("csv+noheader-data%d", dri), FmtIdx: i,
+					Schema: strings.Replace(strings.Replace(f.Schema, `"data_row_index": 2,`, fmt.Sprintf(`"data_row_index": %d,`, dri), 1), `"header_row_index": 1,`, ``, 1),
+					Gen:    func(r *vh.Rng, n int) []byte { return append([]byte(junk(r, dri-1)), body(r, n)...) }})
+			}
 			out = append(out, Variant{Name: "csv+replacequotes", FmtIdx: i,
 				Schema: strings.Replace(f.Schema, `"delimiter": ",",`, `"delimiter": ",", "replace_double_quotes": true,`, 1), Gen: f.Gen})
 		case "csv2":
@@ -344,6 +484,33 @@ func Variants() []Variant {
   {"name":"a","start_pos":2,"length":6,"line_index":1}, {"name":"b","start_pos":8,"length":5,"line_index":1}, {"name":"c","start_pos":2,"length":6,"line_index":2} ] } ] }, ` +
 				`"transform_declarations": { "FINAL_OUTPUT": { "object": { "a": { "xpath": "a" }, "b": { "xpath": "b", "type": "int" }, "c": { "xpath": "c", "keep_empty_or_null": true } } } }}`
 			out = append(out, Variant{Name: "fixedlength2+rows2", FmtIdx: i, Schema: rows2, Gen: f.Gen})
+			fo := `"transform_declarations": { "FINAL_OUTPUT": { "object": { "a": { "xpath": "a" }, "b": { "xpath": "b", "type": "int" }, "c": { "xpath": "c", "keep_empty_or_null": true }, "d": { "xpath": "d" } } } }}`
+			for _, rows := range []int{3, 5} {
+				rows := rows
+				sch := fmt.Sprintf(`{"parser_settings": { "version": "omni.2.1", "file_format_type": "fixedlength2" }, "file_declaration": { "envelopes": [
+  { "name": "R", "rows": %d, "is_target": true, "columns": [
+  {"name":"a","start_pos":2,"length":6,"line_index":1}, {"name":"b","start_pos":8,"length":5,"line_index":2}, {"name":"c","start_pos":2,"length":6,"line_index":%d},
+  {"name":"d","start_pos":13,"length":6,"line_index":1} ] } ] }, `, rows, rows) + fo
+				out = append(out, Variant{Name: fmt.Sprintf("fixedlength2+rows%d", rows), FmtIdx: i, Schema: sch, MultiLine: true,
+					Gen: func(r *vh.Rng, n int) []byte { return f.Gen(r, n*rows) }})
+			}
+			// header/footer envelopes with 1..4 body lines; columns come from the first, a middle and the last line
+			hf := `{"parser_settings": { "version": "omni.2.1", "file_format_type": "fixedlength2" }, "file_declaration": { "envelopes": [
+  { "name": "R", "header": "^B", "footer": "^E", "is_target": true, "columns": [
+  {"name":"a","start_pos":2,"length":6,"line_pattern":"^B"}, {"name":"b","start_pos":3,"length":5,"line_pattern":"^L1"}, {"name":"c","start_pos":2,"length":6,"line_pattern":"^E"},
+  {"name":"d","start_pos":9,"length":4,"line_pattern":"^B"} ] } ] }, ` + fo
+			out = append(out, Variant{Name: "fixedlength2+headerfooter", FmtIdx: i, Schema: hf, MultiLine: true,
+				Gen: func(r *vh.Rng, n int) []byte {
+					var sb strings.Builder
+					for k := 0; k < n; k++ {
+						fmt.Fprintf(&sb, "B%s %s\n", pad(word(r), 6), pad(word(r), 4))
+						for l, m := 1, r.Between(1, 4); l <= m; l++ {
+							fmt.Fprintf(&sb, "L%d%s%s\n", l, pad(numOrBad(r), 5), pad(word(r), r.Between(0, 30)))
+						}
+						fmt.Fprintf(&sb, "E%s\n", pad(word(r), 6))
+					}
+					return []byte(sb.String())
+				}})
 		case "edi":
 			rel := strings.Replace(f.Schema, `"ignore_crlf": true,`, `"ignore_crlf": true, "release_character": "?",`, 1)
 			out = append(out, Variant{Name: "edi+release", FmtIdx: i, Schema: rel,
@@ -378,17 +545,64 @@ func Variants() []Variant {
 	return out
 }
 
+// Input is a generated input with what the oracles need to know about it.
+type Input struct {
+	In   []byte
+	Kind string
+	// Cuts: positions of special interest for schedules (end of the JSON/XML top-level value,
+	// end of the whitespace following it).
+	Cuts []int
+	// TrailingNonWS: the input is a complete, well-formed JSON document followed by something
+	// that is not JSON whitespace: the transform must end with a fatal error, never io.EOF.
+	TrailingNonWS bool
+}
+
 // GenInput produces an input of a variant: mostly small, sometimes large enough to roll the
 // 4096-byte buffers over, sometimes with one very long line, then damaged by vh.Mutate.
 func GenInput(r *vh.Rng, v Variant) (in []byte, kind string) {
+	x := GenInput2(r, v)
+	return x.In, x.Kind
+}
+
+func GenInput2(r *vh.Rng, v Variant) Input {
 	n := r.Between(0, 8)
 	size := "small"
-	if r.Chance(0.12) {
+	pBig := 0.12
+	if v.MultiLine {
+		pBig = 0.3
+	}
+	if r.Chance(pBig) {
 		n = r.Between(150, 420)
+		if v.MultiLine {
+			n = r.Between(60, 260)
+		}
 		size = "large"
 	}
-	in = v.Gen(r, n)
-	in, kind = vh.Mutate(r, in)
+	in := v.Gen(r, n)
+	// JSON / XML: data after the top-level value (a second value, a stray bracket, garbage, or
+	// only whitespace), to be delivered in a later chunk than the closing bracket
+	if (v.FmtIdx == 5 || v.FmtIdx == 6) && r.Chance(0.3) {
+		x := Input{Kind: size + "/trailing"}
+		ws := r.PickStr("", "", "\n", " \n\t ", "\r\n")
+		var tr string
+		if v.FmtIdx == 5 {
+			tr = r.PickStr(`{"a":"x","b":"1","c":"y"}`, `[{"a":"x","b":"2","c":""}]`, "]", "}", "]]", "oops", ",", "null", "\"s\"", "7", "", " ", "\n\n")
+		} else {
+			tr = r.PickStr("<r><n><a>x</a><b>1</b><c>y</c></n></r>", "</r>", "<x/>", "garbage", "<!-- end of export -->", "<?pi x?>", "<", "&", "", "\n", "  \n")
+		}
+		x.Cuts = []int{len(in), len(in) + len(ws)}
+		x.In = append(append(append([]byte(nil), in...), ws...), tr...)
+		if v.FmtIdx == 5 && len(bytes.Trim([]byte(tr), " \t\r\n")) > 0 && v.Name != "json+latin1" && v.Name != "json+cp1252" {
+			x.TrailingNonWS = true
+		}
+		if len(bytes.Trim([]byte(tr), " \t\r\n")) > 0 {
+			x.Kind += "-nonws"
+		} else {
+			x.Kind += "-ws"
+		}
+		return x
+	}
+	in, kind := vh.Mutate(r, in)
 	if r.Chance(0.05) && len(in) > 0 {
 		p := r.Pick(len(in))
 		long := bytes.Repeat([]byte(r.PickStr("y", "é", "\r", "ab ")), pickInt(r, 4095, 4096, 4097, 8192, 9000))
@@ -403,7 +617,7 @@ func GenInput(r *vh.Rng, v Variant) (in []byte, kind string) {
 		in = append(in, '\n')
 		kind += "+terminated"
 	}
-	return in, size + "/" + kind
+	return Input{In: in, Kind: size + "/" + kind}
 }
 
 // ---- transcripts -----------------------------------------------------------------------------
